@@ -17,6 +17,7 @@ from ..monitor import Patch, call_real, describe_exc, exc_site, reach
 
 ID = 'C12'
 LEVEL = 'exploration'
+DEBUG_TOGGLE = True  # runner flips the library debug flag every 97 monitored executions
 TECHNIQUE = 'runtime monitoring: reference-model monitor (one reference per built-in reward/termination component, own BFS for the shortest-path variant) on arbitrary and real triples; spies on GridWorld reward/termination arguments; recording wrappers on the reach_exit parts relating exit reward to exit termination per step'
 LEVEL_TEXT = ('Every built-in reward and termination component, built through the real factory with random float parameters, '
               'is evaluated next to a reference written from its docstring on arbitrary triples (next state unrelated) and real '
@@ -53,8 +54,9 @@ def type_map():
 
 
 def close(a, b):
-    if isinstance(a, bool) or isinstance(b, bool):
-        return a is b
+    import numpy as _np
+    if isinstance(a, (bool, _np.bool_)) or isinstance(b, (bool, _np.bool_)):
+        return isinstance(a, (bool, _np.bool_)) and isinstance(b, (bool, _np.bool_)) and bool(a) == bool(b)
     try:
         return math.isclose(a, b, rel_tol=1e-9, abs_tol=1e-9)
     except TypeError:
@@ -123,7 +125,7 @@ def component_checks(ctx, comp, types, triples):
             if fires:
                 ctx.hit(f'fires.{kind}.{spec["name"]}')
                 ctx.nontrivial((kind, enc.jdump(spec), enc.es(s), a.name, enc.es(ns)))
-            if not close(v1, want) or (kind == 'terminating' and type(v1) is not bool):
+            if not close(v1, want) or (kind == 'terminating' and not isinstance(v1, (bool, np.bool_))):
                 ctx.violation('component', f'value.{kind}.{spec["name"]}',
                               f'{kind} {spec} returned {v1!r}, documented value {want!r}; agent {enc.ea(s.agent)} -> '
                               f'{enc.ea(ns.agent)} action {a.name}', 'triple', payload)
@@ -374,7 +376,7 @@ def drive_compositions(ctx, n, log):
                 exit_agreement(ctx, log, ns, f'composition {comp.id}', payload)
                 want_r = refmodel.ref_reward(full, types, pre, action, ns)
                 want_d = refmodel.ref_terminating(comp.terminating, types, pre, action, ns)
-                if not close(r, want_r) or d is not want_d:
+                if not close(r, want_r) or not close(d, want_d):
                     ctx.violation('gridworld', 'gridworld.step_values',
                                   f'composition {comp.id}: step returned ({r!r}, {d!r}), reference ({want_r!r}, {want_d!r})',
                                   'env_step', payload())
@@ -437,7 +439,7 @@ def drive_shipped(ctx, log, seeds, steps):
                                               f'({action.name}, agent {enc.ea(state.agent)} -> {enc.ea(ns.agent)})', 'env_step', payload())
                     try:
                         want_d = refmodel.ref_terminating(data['terminating_function'], types, pre, action, ns)
-                        if d is not want_d:
+                        if not close(d, want_d):
                             ctx.violation('gridworld', 'shipped.termination', f'{name} t={t}: flag {d!r}, reference {want_d!r}', 'env_step', payload())
                     except KeyError:
                         pass
@@ -457,6 +459,8 @@ def anchored():
 
 
 def run(ctx):
+    from .. import custom_objects
+    custom_objects.enable(cleats=True)  # user-defined object types join the generators' pool (flags, not types, must decide)
     log = []
     with Patch() as patch, reach(ctx, anchored()):
         install_exit_recorders(ctx, patch, log)
@@ -465,6 +469,8 @@ def run(ctx):
 
 
 def replay(ctx, kind, payload):
+    from .. import custom_objects
+    custom_objects.enable(cleats=True)
     types = type_map()
     if kind == 'triple':
         spec, k = payload['spec'], payload['kind']
@@ -504,7 +510,7 @@ def replay(ctx, kind, payload):
                 try:
                     if not close(r, refmodel.ref_reward(full, types, state, action, ns)):
                         ctx.violation('gridworld', 'shipped.total_reward', 'reward differs from reference', kind, payload)
-                    if d is not refmodel.ref_terminating(term, types, state, action, ns):
+                    if not close(d, refmodel.ref_terminating(term, types, state, action, ns)):
                         ctx.violation('gridworld', 'shipped.termination', 'flag differs from reference', kind, payload)
                 except (KeyError, AssertionError):
                     pass
